@@ -430,7 +430,7 @@ func TestC03_Depth(t *testing.T) {
 			text, data := deepExpr(kind, n)
 			c.Case()
 			call := run.Call{API: "search", Expr: "depth:" + kind + ":" + strconv.Itoa(n)}
-			run.Watch(c, "depth", call)
+			run.WatchAs(c, "depth", "custom:c03-depth", nil, call)
 			var msg string
 			if n > 10000 {
 				msg = depthInChild(kind, n)
